@@ -15,8 +15,8 @@ LEVEL_TEXT = ("Theorems C07_advance_is_max / C07_advance_perm / C07_advance_mono
               "p2panda-core/src/cursor.rs and p2panda/src/streams/acked.rs on every run: real Cursor::advance sequences and real Acked::ack calls "
               "(several Acked instances over one SqliteStore, cursor read back through Acked::cursor and CursorStore::get_cursor after every call) "
               "are compared with the model step by step; the oracle is evaluated on the implementation's observations. "
-              "Partial: one ack is modelled as atomic (what the instance's one-permit semaphore provides); StreamSubscription::ack (store lookup "
-              "of the operation by hash, then Acked::ack on its header) is not driven, only the Acked::ack it delegates to.")
+              "A few cases per run go through a real Node: two topic streams, published operations, the public StreamSubscription::ack. "
+              "Partial: one ack is modelled as atomic (what the instance's one-permit semaphore provides).")
 LEVEL_NOTE = ("Trusted: Coq kernel + vm_compute; hand-written model; SQLite upsert/select of cursors_v1 and the CBOR round trip of a cursor "
               "(exercised by every ack case, not proved); BLAKE3 log ids of distinct topics distinct; harness/python glue. "
               "Two separately constructed Acked values with the same cursor name do not share a semaphore: the lost-update interleaving is "
@@ -25,7 +25,8 @@ ASSUMPTIONS = ["each Acked::ack call is atomic with respect to other calls on th
                "LogId::from_topic is injective on the topics used (BLAKE3)",
                "the cursors_v1 table behaves as a finite map keyed by name and decode_cbor(encode_cbor(cursor)) = cursor"]
 TRUSTED = ["modelled not verified: SQLite cursor table, CBOR cursor encoding, tokio Semaphore (atomicity of one ack), BTreeMap"]
-RULE = ("quick: adv = all advance sequences of length <= 4 over 2 logs x heights {0,1,2} (1555), all 120 orders of 3 random 5-advance multisets over "
+RULE = ("node = random histories on a real Node (explicit ack policy, two topic streams, 1-4 published operations each, 3-8 calls of "
+        "StreamSubscription::ack incl. cross-topic ones; 6 quick / 40 thorough); quick: adv = all advance sequences of length <= 4 over 2 logs x heights {0,1,2} (1555), all 120 orders of 3 random 5-advance multisets over "
         "3 authors x 3 logs, 200 random sequences (<= 40 advances, initial state, heights up to u32::MAX); ack = all sequences of length <= 2 over "
         "2 default-named topic streams x 2 authors x 2 topics x seq {0,1,2} (601) and 300 random histories (1-4 instances with default or custom, "
         "possibly shared names, 3 topics of which one is tracked by nobody, <= 14 acks). thorough: adv length <= 5 (9331) + 20 multisets x 120 orders "
@@ -73,8 +74,28 @@ def _rand_ack(rng, maxlen):
     return {"kind": "ack", "insts": insts, "ops": ops}
 
 
+def _rand_node(rng):
+    counts = [rng.randint(1, 4), rng.randint(1, 4)]
+    ops = []
+    for _ in range(rng.randint(3, 8)):
+        i = rng.randrange(2)
+        t = i if rng.random() < 0.7 else 1 - i
+        ops.append([i, t, rng.randrange(counts[t])])
+    return {"kind": "node", "counts": counts, "ops": ops}
+
+
+def _as_ack(case):
+    """A node case is an ack case: two default-named topic streams, the node's key is author 0."""
+    if case["kind"] != "node":
+        return case
+    return {"kind": "ack", "insts": [[None, 0], [None, 1]], "ops": [[i, 0, t, j] for i, t, j in case["ops"]]}
+
+
 def gen(tier, rng):
     quick = tier == "quick"
+    # node: real Node, two topic streams, StreamSubscription::ack (expensive: one node per case)
+    for _ in range(6 if quick else 40):
+        yield _rand_node(rng)
     # adv: exhaustive short sequences over a 6-letter alphabet
     alpha = [[0, l, h] for l in (0, 1) for h in (0, 1, 2)]
     for n in range(0, (4 if quick else 5) + 1):
@@ -110,6 +131,8 @@ def _name_idx(inst):
 
 
 def harness_line(case):
+    if case["kind"] == "node":
+        return "node %d %d ; %s" % (case["counts"][0], case["counts"][1], " ; ".join("%d %d %d" % tuple(o) for o in case["ops"]))
     if case["kind"] == "adv":
         init = " ".join("%d/%d=%d" % (a, l, h) for a, inner in case["init"] for l, h in inner)
         ops = " ; ".join("%d %d %d" % tuple(x) for x in case["xs"])
@@ -140,6 +163,7 @@ def _init_sorted(case):
 
 
 def coq_model(case):
+    case = _as_ack(case)
     if case["kind"] == "adv":
         return "model_line_adv %s %s" % (_coq_heights(_init_sorted(case)), _coq_xs(case["xs"]))
     return "model_line_ack %s %s" % (_coq_insts(case["insts"]), _coq_ops(case["ops"]))
@@ -184,6 +208,7 @@ def _parse_ack(impl):
 def coq_oracle(case, impl):
     if impl.startswith("PANIC") or "RAWDIFF" in impl or "?" in impl:
         return "false"
+    case = _as_ack(case)
     if case["kind"] == "adv":
         if "|" not in impl:
             return "false"
@@ -206,10 +231,17 @@ def nontrivial(case, impl):
             return False
         seen = [t for t in impl.split("|")[0].strip().split(",") if t != ""]
         return any(t != "-" and int(t) > x[2] for t, x in zip(seen, case["xs"]))
-    return " ok" in (" " + impl) and "InvalidTopic" in impl
+    return ("ok " in impl or impl.endswith("ok")) and "InvalidTopic" in impl
 
 
 def shrink(case):
+    if case["kind"] == "node":
+        ops = case["ops"]
+        for i in range(len(ops)):
+            c = dict(case)
+            c["ops"] = ops[:i] + ops[i + 1:]
+            yield c
+        return
     key = "xs" if case["kind"] == "adv" else "ops"
     xs = case[key]
     for i in range(len(xs)):
@@ -229,18 +261,18 @@ def shrink(case):
 
 def distribution(cases, impl):
     adv = [c for c in cases if c["kind"] == "adv"]
-    ack = [c for c in cases if c["kind"] == "ack"]
+    ack = [c for c in cases if c["kind"] in ("ack", "node")]
     res = {"ok": 0, "InvalidTopic": 0, "other": 0}
     for i, c in enumerate(cases):
-        if c["kind"] == "ack" and i in impl:
+        if c["kind"] in ("ack", "node") and i in impl:
             for part in impl[i].split(" ; "):
                 r = part.strip().split(" ")[0]
                 if r in res:
                     res[r] += 1
                 elif r:
                     res["other"] += 1
-    return {"adv_cases": len(adv), "ack_cases": len(ack),
+    return {"adv_cases": len(adv), "ack_cases": len(ack), "node_cases": sum(1 for c in cases if c["kind"] == "node"),
             "max_adv_len": max([len(c["xs"]) for c in adv] or [0]), "max_ack_len": max([len(c["ops"]) for c in ack] or [0]),
             "ack_results": res,
-            "shared_name_configs": sum(1 for c in ack if len({_name_idx(i) for i in c["insts"]}) < len(c["insts"])),
+            "shared_name_configs": sum(1 for c in ack if c["kind"] == "ack" and len({_name_idx(i) for i in c["insts"]}) < len(c["insts"])),
             "panics": sum(1 for v in impl.values() if v.startswith("PANIC"))}
